@@ -28,6 +28,7 @@ import (
 	"strconv"
 	"strings"
 	"sync"
+	"sync/atomic"
 	"time"
 
 	"rare/pkg/extractor"
@@ -64,6 +65,88 @@ type traceCfg struct {
 	startMs  int // the loop is started this long after the extractor (workers fill readChan and park)
 	// C01: classification configuration (nil = fixed legacy configuration)
 	cls *clsSpec
+	// schedule steering of THIS run (not part of the case line: the counters a replay compares do not depend on it)
+	steer *steerSpec
+}
+
+// ---- schedule steering (hook VerifTraceSetProbe, /repo 17b7a1a): every trace point - the points that are the
+// transitions of the model - first calls the probe on the goroutine that reached it.  A steerSpec parks the first
+// `holds` goroutines that reach the point `at` until ANOTHER goroutine reaches the point `until` (or `wait` has
+// passed), and, with seed != 0, yields / pauses at random points like C05's jitterProbe.  The logs the trace machine
+// judges then come from interleavings the plain scheduler practically never produces: a worker sitting on its batch
+// while another worker delivers a later one (the path of theorem two_workers_reorder_counterexample), a worker
+// parked between counting and sending, a reader parked on a full batch while another reader sends, a lagging
+// consumer, the closer parked while the workers drain.
+type steerSpec struct {
+	seed      uint64
+	at, until string
+	holds     int32
+	wait      time.Duration
+}
+
+var steerPairs = [][2]string{
+	{"w.recv", "w.sent"}, {"w.recv", "w.sent"}, {"w.send", "w.recv"}, {"w.count", "line.m"}, {"flush", "sent"},
+	{"sent", "w.recv"}, {"w.sent", "c.recv"}, {"c.recv", "w.send"}, {"sema.acq", "flush"}, {"src.close", "rd.start"},
+	{"c.close", "w.recv"}, {"w.exit", "w.exit"}, {"line.i", "line.m"}, {"flush.eof", "w.sent"}, {"rd.start", "src.open"},
+}
+
+// steerCounts: what the steering did in this process (merged into the statistics of the generated cases).
+var steerCounts = map[string]int{}
+var steerMu sync.Mutex
+
+func (sp *steerSpec) probe() func(string, string) {
+	var ctr, untilCnt uint64
+	var holds int32
+	return func(ev string, s string) {
+		if ev == sp.until {
+			atomic.AddUint64(&untilCnt, 1)
+		}
+		if ev == sp.at && sp.holds > 0 && atomic.AddInt32(&holds, 1) <= sp.holds {
+			c0 := atomic.LoadUint64(&untilCnt)
+			dl := time.Now().Add(sp.wait)
+			released := false
+			for time.Now().Before(dl) {
+				if atomic.LoadUint64(&untilCnt) != c0 {
+					released = true
+					break
+				}
+				time.Sleep(20 * time.Microsecond)
+			}
+			steerMu.Lock()
+			if released {
+				steerCounts["trace.steer.hold.released"]++
+			} else {
+				steerCounts["trace.steer.hold.timeout"]++
+			}
+			steerMu.Unlock()
+			return
+		}
+		if sp.seed == 0 {
+			return
+		}
+		x := mixSeed(sp.seed + atomic.AddUint64(&ctr, 1)*0x9e3779b97f4a7c15)
+		switch {
+		case x%16 == 0:
+			time.Sleep(time.Duration(20+(x>>8)%300) * time.Microsecond)
+		case x%4 == 1:
+			runtime.Gosched()
+		}
+	}
+}
+
+func genSteer(r *Rand) *steerSpec {
+	switch r.Intn(4) {
+	case 0:
+		return nil // the plain scheduler
+	case 1:
+		return &steerSpec{seed: r.U64() | 1}
+	}
+	p := Pick(r, steerPairs)
+	sp := &steerSpec{at: p[0], until: p[1], holds: int32(Pick(r, []int{1, 1, 2, 4})), wait: time.Duration(Pick(r, []int{300, 1500, 4000})) * time.Microsecond}
+	if r.Chance(1, 2) {
+		sp.seed = r.U64() | 1
+	}
+	return sp
 }
 
 // blobTail is the optional fifth part of the blob.
@@ -221,6 +304,10 @@ func runPipeTraced(c traceCfg) tracedResult {
 	if c.procs > 0 {
 		defer runtime.GOMAXPROCS(runtime.GOMAXPROCS(c.procs))
 	}
+	if c.steer != nil {
+		extractor.VerifTraceSetProbe(c.steer.probe())
+		defer extractor.VerifTraceSetProbe(nil)
+	}
 	extractor.VerifTraceStart()
 	b, cleanup := openBatcher(c)
 	ecfg, err := extractorConfig(c.cls, c.workers)
@@ -253,6 +340,18 @@ var traceAnswers = map[string]string{}
 
 func pipeTraceCase(c traceCfg) string {
 	r := runPipeTraced(c)
+	if c.steer != nil {
+		steerMu.Lock()
+		switch {
+		case c.steer.holds > 0 && c.steer.seed != 0:
+			steerCounts["trace.steer.hold+jitter"]++
+		case c.steer.holds > 0:
+			steerCounts["trace.steer.hold"]++
+		default:
+			steerCounts["trace.steer.jitter"]++
+		}
+		steerMu.Unlock()
+	}
 	blob := c.cfgString() + "/" + encodeInputs(c.inputs) + "/" + r.summary + "/" + encodeTrace(r.evs, srcIndex) + c.blobTail()
 	cs := "ptrace " + blob
 	traceAnswers[cs] = "ok accepted final=" + r.summary
@@ -363,9 +462,66 @@ func pipeTraceGen(r *Rand, tier string) []string {
 	}
 	out := make([]string, 0, n)
 	for i := 0; i < n; i++ {
-		out = append(out, pipeTraceCase(genTraceCfgCls(r, tier == "thorough" || i%20 == 3, i)))
+		c := genTraceCfgCls(r, tier == "thorough" || i%20 == 3, i)
+		c.steer = genSteer(r)
+		out = append(out, pipeTraceCase(c))
+	}
+	return append(out, forcedReorderCases(r, tier)...)
+}
+
+// forcedReorderCases: the REAL code driven along the path of theorem two_workers_reorder_counterexample - one source,
+// batches of one line, two workers; the worker that received the first batch is parked at `w.recv` until the other
+// worker has delivered a later batch (`w.sent`), so the consumer receives a later line first.  The log must be a
+// path of the model (ptrace), and the statistics count how often the overtaking was realised (c.recv out of order).
+func forcedReorderCases(r *Rand, tier string) []string {
+	n := 4
+	if tier == "thorough" {
+		n = 40
+	}
+	var out []string
+	for i := 0; i < n; i++ {
+		c := traceCfg{mode: "f", missing: -1, script: ".", batch: 1, workers: Pick(r, []int{2, 2, 3}), readers: 1, buffer: Pick(r, []int{1, 2, 0}),
+			procs: Pick(r, []int{0, 2, 4})}
+		lines := Pick(r, []int{2, 2, 3, 5})
+		var in []byte
+		for k := 0; k < lines; k++ {
+			in = append(in, []byte(Pick(r, []string{"a", "bb", "q", "m"})+"\n")...)
+		}
+		c.inputs = [][]byte{in}
+		if i%2 == 1 {
+			c.cls = &clsSpec{matcher: "h", nilIgnore: true, extract: "{src}:{line}:{0}"}
+		}
+		c.steer = &steerSpec{at: "w.recv", until: "w.sent", holds: 1, wait: 200 * time.Millisecond}
+		cs := pipeTraceCase(c)
+		steerCounts["trace.reorder.forced"]++
+		if traceReordered(cs) {
+			steerCounts["trace.reorder.forced.realised"]++
+		}
+		out = append(out, cs)
 	}
 	return out
+}
+
+// traceReordered: does the consumer of this logged run receive a line of a source before an earlier line of it?
+func traceReordered(cs string) bool {
+	f := strings.Fields(cs)
+	parts := strings.Split(f[1], "/")
+	if len(parts) < 4 {
+		return false
+	}
+	last := map[string]int{}
+	for _, e := range strings.Split(parts[3], "_") {
+		q := strings.Split(e, ".")
+		if len(q) != 5 || q[1] != "cr" {
+			continue
+		}
+		a, _ := strconv.Atoi(q[3])
+		if l, ok := last[q[2]]; ok && a < l {
+			return true
+		}
+		last[q[2]] = a
+	}
+	return false
 }
 
 // traceStats adds distribution facts of one trace case to st.
@@ -384,6 +540,12 @@ func traceStats(st map[string]int, c string) {
 	}
 	cfg := strings.Split(parts[0], ".")
 	st["trace.cases"]++
+	if traceReordered(c) {
+		st["trace.reordered"]++ // later line of a source consumed before an earlier one (needs >= 2 workers)
+		if cfg[2] == "1" {
+			st["trace.reordered.ONE-WORKER"]++ // never: pipeline_single_worker_order
+		}
+	}
 	st["trace.mode."+cfg[0]]++
 	st["trace.batch."+cfg[1]]++
 	st["trace.workers."+cfg[2]]++
